@@ -20,6 +20,9 @@ EVID = os.environ.get('VX_EVIDENCE', os.path.join(VERIF, 'evidence'))  # seeded 
 TRUST_RX = re.compile(r'external_body|assume_specification|admit\s*\(|assume\s*\(|external_type_specification|external_fn_specification|\baxiom\b|#\[verifier::external\]')
 
 
+SAFETY_PAT = re.compile(r'precondition not (?:met|satisfied)|arithmetic|overflow|underflow|division by zero|bit shift|decreases|termination|index|nonnegative', re.I)
+
+
 class Undecided(Exception):
     pass
 
@@ -130,10 +133,32 @@ class PropertyRun:
         expected = u.spec.get('expected_queries')
         if expected is not None and main.functions and len(main.functions) < expected:
             self.undecided.append(f'verus unit {name}: only {len(main.functions)} queries, contracts expect >= {expected} (silently skipped function?)')
+        policy = self.spec.get('verus_policy', {})
         for tag, fs in failed_tags.items():
-            f = fs[0]
+            # safety obligations (index, slice, arithmetic, termination, callee preconditions) vs the function's
+            # own functional clauses (ensures / invariant / assert)
+            safety = [x for x in fs if SAFETY_PAT.search(x['message'])]
+            f = (safety or fs)[0]
+            is_lemma = '.lemmas' in tag
+            fn_id = tag.split('.')[-1]
+            if not safety and not is_lemma and fn_id in policy.get('ignore_functional', {}).get(name, []):
+                self.notes.append(f'functional contract of {tag} no longer verifies ({f["message"]}); it belongs to another property and {self.pid} does not depend on it')
+                continue
+            own = policy.get('own_functional', {})
+            if not safety and not is_lemma and name in own and fn_id not in own[name]:
+                self.undecided.append(f'verus unit {name}: functional contract of {tag} (it serves another property) no longer verifies '
+                                      f'({f["message"]}); what {self.pid} derives from it is void')
+                continue
+            if name in policy.get('safety_only_units', []) and not safety and not is_lemma:
+                # this property is decided by the safety obligations of the unit; its functional contract serves
+                # another property.  When that contract fails, callers were checked against a contract that no
+                # longer holds, so their safety proofs are void: undecided, never an alarm for this property.
+                self.undecided.append(f'verus unit {name}: functional contract of {tag} (it serves another property) no longer verifies '
+                                      f'({f["message"]}); the safety proofs that rely on it are void for {self.pid}')
+                continue
             self.violations.append({'obligation': f'{self.pid}.{tag}', 'backend': 'verus', 'message': f['message'],
                                     'detail': '\n'.join(x['rendered'] for x in fs)[:6000], 'unit': name,
+                                    'functional': not safety and not is_lemma,
                                     'pair': (u.spec.get('pair', {}) or {}).get(tag.split('.', 1)[-1])})
         # frame scans: a representation invariant proved on the functions that write a field carries to the
         # whole file only if nothing else writes it; every mention of the field must have a listed shape.
@@ -322,6 +347,24 @@ class PropertyRun:
                 self.run_kani_units(kn)
             except LostAnchor as e:
                 self.undecided.append(f'kani units: lost anchor: {e}')
+        # gated units: their functional contracts are an intermediate description of the code (e.g. "which IP view the
+        # parser selects"), not the property.  A change may move code and description consistently on both sides
+        # of a relational property; such a failure counts as a violation only if the end-to-end check of the
+        # property on the real code (the gate obligations) does not pass.
+        gates = self.spec.get('verus_policy', {}).get('gated_units', {})
+        if gates:
+            results = {o['id']: o.get('ok') for o in self.obligations + self.bounded if str(o.get('backend', '')).startswith('kani')}
+            keep = []
+            for v in self.violations:
+                g = gates.get(v.get('unit'))
+                if v['backend'] == 'verus' and g and v.get('functional'):
+                    if all(results.get(x) is True for x in g):
+                        self.undecided.append(f'verus unit {v["unit"]}: intermediate contract {v["obligation"]} no longer verifies ({v["message"]}) '
+                                              f'but the end-to-end obligations {", ".join(g)} pass on the real code: contract out of date, or a '
+                                              f'violation beyond their bound: undecided')
+                        continue
+                keep.append(v)
+            self.violations = keep
         # trusted-base allow-list
         allow_p = os.path.join(VERIF, 'contracts', 'trusted_allow.json')
         allow = json.load(open(allow_p)) if os.path.exists(allow_p) else {}
